@@ -581,6 +581,10 @@ def fac_fn(a, tier):
             ctx.add_resource(Val("the T0"), name, [T0])
             if second == 0:
                 ctx.add_resource(Val("the T1"), name, [T1])
+            else:
+                # a short-lived child context registers a T1 factory of its own: nothing of that is visible in `ctx` afterwards
+                async with Context() as child:
+                    child.add_resource_factory(lambda: Val("made in a child context"), name, types=[T1])
             seq = [("g1", g1), ("g2", g2), ("g1", g1)] if order == 0 else [("g2", g2), ("g1", g1), ("g2", g2)]
             out["calls"] = [(tag, await call(fn)) for tag, fn in seq]
             # explicit lookups in the same context
